@@ -104,7 +104,8 @@ func vNewVMWorld(payloadBase, payloadN int, uncatchable bool) *vVMWorld {
 	k := vChoice("callStackLen", vBound("K")+1)
 	w.k = k
 	for i := 0; i < k; i++ {
-		c := context{pc: vNondetInt("ctx.pc"), sb: vNondetInt("ctx.sb"), args: vNondetInt("ctx.args"), stash: &stash{}}
+		c := context{pc: vNondetInt("ctx.pc"), sb: vNondetInt("ctx.sb"), args: vNondetInt("ctx.args"), stash: &stash{},
+			prg: &Program{}, result: valueInt(500 + i), newTarget: valueInt(600 + i)}
 		m.callStack = append(m.callStack, c)
 	}
 	w.ctxs = append([]context{}, m.callStack...)
@@ -281,6 +282,7 @@ func H_C03_handleThrow_catchable() {
 	if int(tf.callStackLen) < w.k {
 		c := w.ctxs[tf.callStackLen]
 		vAssert("ctx-restored", m.sb == c.sb && m.args == c.args)
+		vAssert("ctx-restored:prg-result-newTarget", m.prg == c.prg && m.result == c.result && m.newTarget == c.newTarget)
 		if kd == vfMarker {
 			vAssert("ctx-pc-restored", m.pc == c.pc)
 		}
